@@ -319,13 +319,27 @@ impl Cw20Scen {
         v.join(";")
     }
 
+    /// The bytes of `WasmMsg::Execute.msg` of every emitted message, hex, `;`-separated (`-`: not a wasm execute):
+    /// compared byte for byte with the model's `MsgWire.encodeReceive`.
+    fn render_raw(res: &Response) -> String {
+        let v: Vec<String> = res
+            .messages
+            .iter()
+            .map(|m| match &m.msg {
+                CosmosMsg::Wasm(WasmMsg::Execute { msg, .. }) => hex(msg.as_slice()),
+                _ => "-".to_string(),
+            })
+            .collect();
+        v.join(";")
+    }
+
     fn tx(&mut self, f: impl FnOnce(&mut Deps, Env) -> Result<Response, cw20_base::ContractError>) -> String {
         let snap = self.deps.storage.clone();
         let env = self.env.clone();
         let deps = &mut self.deps;
         let r = catch(move || f(deps, env));
         match r {
-            Some(Ok(res)) => format!("> ok msgs={}", Self::render_msgs(&res)),
+            Some(Ok(res)) => format!("> ok msgs={} raw={}", Self::render_msgs(&res), Self::render_raw(&res)),
             Some(Err(_)) => {
                 self.deps.storage = snap;
                 "> err".to_string()
